@@ -249,7 +249,57 @@ def run_harness(args, pkg="vh", stdin_path=None, stdout_path=None, timeout=3600,
         raise ToolError("harness %s failed rc=%s:\n%s" % (args, p.returncode, err[-4000:]))
     log("[vh] %s rc=%s %.1fs" % (" ".join(map(str, args)), p.returncode, time.time() - t0))
     out = None if stdout_path else p.stdout.decode("utf-8", "replace")
+    if stdout_path:
+        maybe_corrupt(stdout_path)
     return p.returncode, out, err
+
+
+SWAP = {"ok": "err", "err": "ok", "allow": "reject", "reject": "allow", "must": "mustnot", "mustnot": "must"}
+
+
+def _corrupt_value(v):
+    if isinstance(v, bool):
+        return not v
+    if isinstance(v, str):
+        return SWAP.get(v, v + "~")
+    if isinstance(v, int):
+        return v + 1
+    if isinstance(v, list):
+        return v[:-1] if v else [0]
+    if isinstance(v, dict):
+        return {k: x for i, (k, x) in enumerate(v.items()) if i > 0} if v else {"x": 0}
+    return True
+
+
+def maybe_corrupt(path):
+    """Self-test hook: VERIF_CORRUPT=<file basename>:<field>:<n> corrupts that observation field of the n-th record
+    holding it, after the real code has produced the file (bin/selftest expects the check to report a violation)."""
+    spec = os.environ.get("VERIF_CORRUPT")
+    if not spec:
+        return
+    base, field, n = spec.split(":")
+    if os.path.basename(path) != base:
+        return
+    lines = open(path, encoding="utf-8").read().split("\n")
+    idx = [i for i, ln in enumerate(lines) if ln.startswith("{") and ('"%s":' % field) in ln]
+    holders = []
+    for i in idx:
+        try:
+            r = json.loads(lines[i])
+        except Exception:
+            continue
+        if field in r:
+            holders.append(i)
+    if not holders:
+        raise ToolError("selftest: no record of %s has the field %s" % (base, field))
+    i = holders[int(n) % len(holders)]
+    r = json.loads(lines[i])
+    old = r[field]
+    r[field] = _corrupt_value(old)
+    lines[i] = json.dumps(r, ensure_ascii=False)
+    with open(path, "w", encoding="utf-8") as f:
+        f.write("\n".join(lines))
+    print("SELFTEST corrupted %s line %d field %s: %s -> %s" % (base, i + 1, field, json.dumps(old)[:80], json.dumps(r[field])[:80]))
 
 
 def read_ndjson(path):
